@@ -47,6 +47,12 @@ pub fn directed() -> Vec<(&'static str, String)> {
         ("pending-operand-stop", "stel i = 0; zolang i < 10 { i += 1; 1 + als i > 5 { stop } anders { 2 } }; i".into()),
         ("pending-operand-volgende-in-call", "functie f() { stel i = 0; stel x = 0; zolang i < 100 { i += 1; x = [1, 2, als i > 0 { volgende } anders { 3 }] }; i } f()".into()),
         ("return-in-loop-in-if", "functie f(n) { zolang ja { als n > 0 { antwoord n } anders { n += 1 } } } f(-3)".into()),
+        ("function-ends-in-elseless-if-return", "functie f(x) { als x { antwoord 1 } }; [f(ja), f(nee)]".into()),
+        ("function-ends-in-nested-elseless-if-return", "functie f(x) { { als x { antwoord 1 } } }; [f(nee), f(ja)]".into()),
+        ("function-ends-in-if-else-return-both", "functie f(x) { als x { antwoord 1 } anders { antwoord 2 } }; [f(ja), f(nee)]".into()),
+        ("function-ends-in-loop-with-return", "functie f(x) { zolang x { antwoord 1 } }; [f(ja), f(nee)]".into()),
+        ("function-ends-in-elif-return", "functie f(x) { als x == 1 { antwoord 1 } anders als x == 2 { antwoord 2 } }; [f(1), f(2), f(3)]".into()),
+        ("function-ends-in-block-return", "functie f(x) { stel a = x; { stel b = a; { antwoord b } } }; f(5)".into()),
         ("return-from-nested-blocks", "functie f() { { { antwoord [1, 2] } } } f()".into()),
         ("if-chain-as-argument", "functie g(a, b) { a + b } g(als ja { 1 } anders { 2 }, als nee { 3 } anders als ja { 4 } anders { 5 })".into()),
         ("while-as-argument", "functie g(a) { 1 } stel i = 0; g(zolang i < 2 { i += 1 })".into()),
@@ -82,7 +88,7 @@ impl C02 {
             (_, Tier::Quick) => (1_500, 1_500),
             _ => (50_000, 50_000),
         };
-        Families::new(vec![("directed", directed().len() as u64), ("enumerated", n_enum), ("random", rnd), ("mutants-and-soups", mutants)])
+        Families::new(vec![("directed", directed().len() as u64), ("enumerated", n_enum), ("random", rnd), ("mutants-and-soups", mutants), ("control-templates", rnd / 2)])
     }
 
     fn text(&mut self, ctx: &Ctx, idx: u64) -> (&'static str, String) {
@@ -94,6 +100,11 @@ impl C02 {
             "random" => {
                 let (p, _) = random_program(&mut r, PROFILES[(i % 6) as usize]);
                 (name, to_text(&p))
+            }
+            "control-templates" => {
+                // the nests of C11 (every early-exit placement in every wrapper), sampled
+                let k = r.below(super::flow::TEMPLATE_SPACE);
+                (name, to_text(&super::flow::template(k)))
             }
             _ => {
                 let t = match i % 4 {
